@@ -93,8 +93,21 @@ def hist_h2():
     """two recorders, two files: A (bare file name -> problem outputs dir) on the driver and the
     problem, B (absolute path) on a subgroup and a component"""
     import openmdao.api as om
-    recA = om.SqliteRecorder('drv.sql', record_viewer_data=False)
-    recB = om.SqliteRecorder(os.path.abspath('sys.sql'), record_viewer_data=False)
+
+    class Rec(om.SqliteRecorder):
+        # recording_manager.record_model_options() iterates over a *set* of recorder objects, whose
+        # order follows their addresses and differs from process to process.  A fixed small hash
+        # makes the interleaving of the two recorders' metadata statements the same in every run
+        # (owned nondeterminism; equality stays identity, nothing else changes).
+        def __init__(self, order, *args, **kwargs):
+            self._c18_order = order
+            super().__init__(*args, **kwargs)
+
+        def __hash__(self):
+            return self._c18_order
+
+    recA = Rec(1, 'drv.sql', record_viewer_data=False)
+    recB = Rec(2, os.path.abspath('sys.sql'), record_viewer_data=False)
     p = om.Problem(name='h2', reports=None)
     m = p.model
     g = m.add_subsystem('g', om.Group(), promotes=['*'])
